@@ -606,6 +606,11 @@ def front_stage(tier_, key):
                 o = dict(rand_opts(r), protocol=-1, seed=sd, seedl=seed_limbs(sd), ext=ext, buf=buf, min=30, max=60)
                 cases.append({"id": len(cases) + 1, "kind": "cli", "mode": ("single", "batch", "action")[(r + ext + 2 * buf) % 3], "opts": o,
                               "n": 2, "threads": 2})
+        # boundary seeds: 0 is a seed like any other (protocol 0 when none is given), so are 1 and 2^64-1
+        for sd in (0, 1, 2 ** 64 - 1, 6, 2 ** 32):
+            for mode in ("single", "batch", "action"):
+                o = dict(rand_opts(sd % 7), protocol=-1 if mode != "batch" else rng.choice([-1, 3]), seed=sd if sd < 2 ** 31 else -2, seedl=seed_limbs(sd), min=20, max=50)
+                cases.append({"id": len(cases) + 1, "kind": "cli", "mode": mode, "opts": o, "n": 2, "threads": 2})
         cases.append({"id": len(cases) + 1, "kind": "cli", "mode": "batch-fail", "opts": rand_opts(1), "n": 3, "threads": 2})
         # one of the files can be opened but not written (<dir>/1.pkl -> /dev/full): "exits 0 only if all were written"
         if os.path.exists("/dev/full"):
